@@ -103,6 +103,8 @@ def impl_replay(job):
                                                           for rx in rec["prog"]["rx"]]))
             nt, dt = rec["nt"], f(rec["dt"]) / tsc
             tp = np.array([i * dt for i in range(nt)])
+            if (rec.get("nt", 0) + len(rec.get("steps", []))) % 3 == 2:
+                tp = np.repeat(tp, 2)[::2]      # the same grid as a non-contiguous view
             rules = [render_rule(rl, dt, (rl["T"] - 1) * dt, tsc) for rl in rec["rules"]]
 
             def fresh():
